@@ -259,6 +259,6 @@ func (o *c14Oracle) nontrivial() (bool, []string) {
 }
 
 func TestVerifC14(t *testing.T) {
-	standardTest(t, "C14", "TestVerifC14", runOpts{minLen: 20, maxLen: 120, gen: ircgen.Options{Bias: "membership", WithMoD: true}},
+	standardTest(t, "C14", "TestVerifC14", runOpts{minLen: 20, maxLen: 120, captchaSometimes: true, gen: ircgen.Options{Bias: "membership", WithMoD: true}},
 		func(rec *vh.Recorder) oracle { return &c14Oracle{rec: rec} })
 }
